@@ -139,6 +139,43 @@ def main(argv=None):
         results.append(res)
     shutil.rmtree(outdir, ignore_errors=True)
 
+    # -- coverage-guided campaign (thorough tier of the properties that declare FUZZ) -----
+    fuzz = {}
+    fz = getattr(mod, "FUZZ", None)
+    if fz and tier == "thorough" and not harness:
+        import re
+        fdir = tempfile.mkdtemp(prefix=f"vffz_{prop.lower()}_")
+        fprocs = []
+        for i in range(fz.get("procs", 8)):
+            out = os.path.join(fdir, f"f{i}.json")
+            cmd = [PY, "-m", "vf.fuzz", prop, "--runs", str(fz.get("runs", 2000)), "--seed", str(seed * 1000 + i + 1), "--out", out]
+            fprocs.append((subprocess.Popen(cmd, env=env, cwd=core.VERIF_ROOT, stdout=subprocess.PIPE,
+                                            stderr=subprocess.STDOUT, text=True), out))
+        fuzz = {"fuzz_processes": len(fprocs), "fuzz_evaluations": 0, "fuzz_features": 0, "fuzz_engine": "atheris/libFuzzer over hypothesis fuzz_one_input"}
+        for p_, out in fprocs:
+            so, _ = p_.communicate()
+            try:
+                with open(out) as f:
+                    fr = json.load(f)
+            except Exception:  # noqa: BLE001
+                fr = {}
+            if fr.get("skipped"):
+                fuzz["fuzz_skipped"] = fr["skipped"]
+                continue
+            fuzz["fuzz_evaluations"] += fr.get("evaluations", 0)
+            m_ = re.findall(r"cov: (\d+) ft: (\d+)", so or "")
+            if m_:
+                fuzz["fuzz_features"] = max(fuzz["fuzz_features"], int(m_[-1][1]))
+            results.append({"evaluations": fr.get("evaluations", 0), "nontrivial": fr.get("nontrivial", []),
+                            "undefined": fr.get("undefined", 0),
+                            "excluded": ({"(fuzz)": fr.get("excluded", 0)} if fr.get("excluded") else {}),
+                            "failures": ([fr["failure"]] if fr.get("failure") and "case" in fr["failure"] and "harness" not in fr["failure"] else []),
+                            "samples": ([fr["sample"]] if fr.get("sample") else [])})
+            if p_.returncode == 2 or (fr.get("failure") and "harness" in fr["failure"]):
+                harness.append({"traceback": (fr.get("failure") or {}).get("harness") or (so or "")[-3000:],
+                                "case": (fr.get("failure") or {}).get("case")})
+        shutil.rmtree(fdir, ignore_errors=True)
+
     # -- merge ----------------------------------------------------------------------
     evaluations = sum(r.get("evaluations", 0) for r in results)
     nontrivial = set()
@@ -214,6 +251,7 @@ def main(argv=None):
         ev["coverage"]["exhaustive"] = True
         ev["coverage"]["exhaustive_scope"] = exhaustive
     ev["coverage"].update(extra)
+    ev["coverage"].update(fuzz)
     evdir = os.environ.get("VF_EVIDENCE_DIR") or os.path.join(core.VERIF_ROOT, "evidence")
     os.makedirs(evdir, exist_ok=True)
     with open(os.path.join(evdir, f"{prop}.json"), "w") as f:
